@@ -208,3 +208,15 @@ M("C19-R2-compressed-size", "C19", [(FINFO, "size: zipped_file.size(),", "size: 
 M("C19-R3-uid-available", "C19", [(FLD, "            Field::Name\n                | Field::Extension\n                | Field::Path\n                | Field::AbsPath", "            Field::Name\n                | Field::Uid\n                | Field::Extension\n                | Field::Path\n                | Field::AbsPath")], ["availability_Uid"])
 M("C19-R3-label-order", "C19", [(S, "                        \"[{}] {}\",\n                        entry.file_name().to_string_lossy(),\n                        file_info.name\n                    ));\n                }\n                _ => {\n                    return Variant::from_string(&format!(\n                        \"{}\",", "                        \"[{}] {}\",\n                        file_info.name,\n                        entry.file_name().to_string_lossy()\n                    ));\n                }\n                _ => {\n                    return Variant::from_string(&format!(\n                        \"{}\",")], ["member-label_Name"])
 M("C19-R3-early-return-inverted", "C19", [(S, "if file_info.is_some() && !field.is_available_for_archived_files() {", "if file_info.is_some() && field.is_available_for_archived_files() {")], ["availability_early-return"])
+
+# ---------------------------------------------------------------- C20
+DK, HG = "src/ignore/docker.rs", "src/ignore/hg.rs"
+M("C20-R1-hg-from-git-config", "C20", [(S, ".unwrap_or(self.config.hgignore.unwrap_or(false));", ".unwrap_or(self.config.gitignore.unwrap_or(false));")], ["precedence_hgignore"])
+M("C20-R1-config-wins", "C20", [(S, "            let apply_dockerignore = root\n                .options\n                .dockerignore\n                .unwrap_or(self.config.dockerignore.unwrap_or(false));", "            let apply_dockerignore = self\n                .config\n                .dockerignore\n                .unwrap_or(root.options.dockerignore.unwrap_or(false));")], ["precedence_dockerignore"])
+M("C20-R2-descent-outside-gate", "C20", [(S, "                                    }\n                                }\n\n                                // Recursively visit subdirectories if we're not too deep\n                                if max_depth == 0 || depth < max_depth {", "                                    }\n                                }\n                            }\n                            {\n\n                                // Recursively visit subdirectories if we're not too deep\n                                if max_depth == 0 || depth < max_depth {")], ["ignored_"])
+M("C20-R2-verdict-or", "C20", [(S, "pass_gitignore && pass_hgignore && pass_dockerignore", "pass_gitignore && (pass_hgignore || pass_dockerignore)")], ["ignored_formula"])
+M("C20-R2-hg-not-negated", "C20", [(S, "                                let pass_hgignore = !apply_hgignore\n                                    || !matches_hgignore_filter(", "                                let pass_hgignore = !apply_hgignore\n                                    || matches_hgignore_filter(")], ["ignored_formula"])
+M("C20-R3-docker-path-raw", "C20", [(DK, "pattern = regex::escape(&path).add", "pattern = path.clone().add")], ["path-unescaped"])
+M("C20-R3-docker-star-crosses-dirs", "C20", [(DK, '"*" => "[^/]*",', '"*" => ".*",')], ["glob-table_convert_dockerignore_glob"])
+M("C20-R4-docker-negation-ignored", "C20", [(DK, "        if is_match && dockerignore_filter.negate {\n            return false;\n        }\n", "")], ["verdict_docker-negation"])
+M("C20-R4-hg-syntax-swapped", "C20", [(HG, 'if s == "regexp" {\n            return Ok(Syntax::Regexp);', 'if s == "regexp" {\n            return Ok(Syntax::Glob);')], ["verdict_hg-syntax"])
